@@ -15,13 +15,17 @@ mutual
     | .union cs, n, e, h => by
         simp only [parseSubRelation] at h
         split at h
-        · cases h
-        · rename_i e' he; cases h; exact children_error ty rel rs cs n _ he
+        · cases h; rfl
+        · split at h
+          · cases h
+          · rename_i e' he; cases h; exact children_error ty rel rs cs n _ he
     | .inter cs, n, e, h => by
         simp only [parseSubRelation] at h
         split at h
-        · cases h
-        · rename_i e' he; cases h; exact children_error ty rel rs cs n _ he
+        · cases h; rfl
+        · split at h
+          · cases h
+          · rename_i e' he; cases h; exact children_error ty rel rs cs n _ he
     | .diff b s, n, e, h => by
         simp only [parseSubRelation] at h
         split at h
@@ -54,17 +58,21 @@ mutual
     | .union cs, n, s, n', h => by
         simp only [parseSubRelation] at h
         split at h
-        · rename_i parts n2 hc
-          cases h
-          simpa [countThis] using children_count ty rel rs cs n _ _ hc
         · cases h
+        · split at h
+          · rename_i parts n2 hc
+            cases h
+            simpa [countThis] using children_count ty rel rs cs n _ _ hc
+          · cases h
     | .inter cs, n, s, n', h => by
         simp only [parseSubRelation] at h
         split at h
-        · rename_i parts n2 hc
-          cases h
-          simpa [countThis] using children_count ty rel rs cs n _ _ hc
         · cases h
+        · split at h
+          · rename_i parts n2 hc
+            cases h
+            simpa [countThis] using children_count ty rel rs cs n _ _ hc
+          · cases h
     | .diff b sb, n, s, n', h => by
         simp only [parseSubRelation] at h
         split at h
@@ -105,11 +113,17 @@ mutual
     | .union cs, n => by
         have := children_total ty rel rs cs n
         simp only [parseSubRelation, noNil]
-        split <;> simp_all [Except.isOk, Except.toBool]
+        split
+        · rename_i he; simp [he, Except.isOk, Except.toBool]
+        · rename_i he
+          split <;> simp_all [Except.isOk, Except.toBool]
     | .inter cs, n => by
         have := children_total ty rel rs cs n
         simp only [parseSubRelation, noNil]
-        split <;> simp_all [Except.isOk, Except.toBool]
+        split
+        · rename_i he; simp [he, Except.isOk, Except.toBool]
+        · rename_i he
+          split <;> simp_all [Except.isOk, Except.toBool]
     | .diff b s, n => by
         have hb := sub_total ty rel rs b n
         simp only [parseSubRelation, noNil]
@@ -143,11 +157,15 @@ theorem top_error (ty rel : String) (rs : List RelRef) (u : Userset) (e : PrintE
       · rename_i e' he; cases h; exact sub_error ty rel rs _ n1 _ he
       · cases h
   · split at h
-    · cases h
-    · rename_i e' he; cases h; exact children_error ty rel rs _ 0 _ he
+    · cases h; rfl
+    · split at h
+      · cases h
+      · rename_i e' he; cases h; exact children_error ty rel rs _ 0 _ he
   · split at h
-    · cases h
-    · rename_i e' he; cases h; exact children_error ty rel rs _ 0 _ he
+    · cases h; rfl
+    · split at h
+      · cases h
+      · rename_i e' he; cases h; exact children_error ty rel rs _ 0 _ he
   · exact sub_error ty rel rs u 0 e h
 
 theorem top_count (ty rel : String) (rs : List RelRef) (u : Userset) (s : String) (n : Nat)
@@ -165,13 +183,17 @@ theorem top_count (ty rel : String) (rs : List RelRef) (u : Userset) (s : String
         have h2 := sub_count ty rel rs _ n1 _ _ hs
         simp only [countThis]; omega
   · split at h
-    · rename_i parts n2 hc; cases h
-      simpa [countThis] using children_count ty rel rs _ 0 _ _ hc
     · cases h
+    · split at h
+      · rename_i parts n2 hc; cases h
+        simpa [countThis] using children_count ty rel rs _ 0 _ _ hc
+      · cases h
   · split at h
-    · rename_i parts n2 hc; cases h
-      simpa [countThis] using children_count ty rel rs _ 0 _ _ hc
     · cases h
+    · split at h
+      · rename_i parts n2 hc; cases h
+        simpa [countThis] using children_count ty rel rs _ 0 _ _ hc
+      · cases h
   · simpa using sub_count ty rel rs u 0 s n h
 
 theorem top_total (ty rel : String) (rs : List RelRef) (u : Userset) : (parseTop ty rel rs u).isOk = noNil u := by
@@ -188,11 +210,17 @@ theorem top_total (ty rel : String) (rs : List RelRef) (u : Userset) : (parseTop
   · rename_i cs
     have := children_total ty rel rs cs 0
     simp only [noNil]
-    split <;> simp_all [Except.isOk, Except.toBool]
+    split
+    · rename_i he; simp [he, Except.isOk, Except.toBool]
+    · rename_i he
+      split <;> simp_all [Except.isOk, Except.toBool]
   · rename_i cs
     have := children_total ty rel rs cs 0
     simp only [noNil]
-    split <;> simp_all [Except.isOk, Except.toBool]
+    split
+    · rename_i he; simp [he, Except.isOk, Except.toBool]
+    · rename_i he
+      split <;> simp_all [Except.isOk, Except.toBool]
   · exact sub_total ty rel rs u 0
 
 /-- **success of `parseRelation`, exactly** -/
